@@ -172,8 +172,58 @@ impl Directory for Rec {
     }
 }
 
+/// `--json-range <literal type> <column type> <lower|upper> <Included|Excluded> <literal> <column value>`:
+/// replays a counterexample of the bound-transformation obligation on a real index: a JSON fast
+/// field whose column `x` has the given numeric type and holds the given value, a one-sided range
+/// query with a literal of the given type; ok = (the value's document matches) == (it should).
+fn json_range_probe(a: &[String]) -> tantivy::Result<bool> {
+    use std::ops::Bound;
+    use tantivy::collector::DocSetCollector;
+    use tantivy::query::RangeQuery;
+    use tantivy::schema::JsonObjectOptions;
+    let (lit_ty, col_ty, side, kind) = (a[0].as_str(), a[1].as_str(), a[2].as_str(), a[3].as_str());
+    let lit: i128 = a[4].parse().unwrap();
+    let val: i128 = a[5].parse().unwrap();
+    let mut sb = Schema::builder();
+    let j = sb.add_json_field("j", JsonObjectOptions::default().set_fast(None));
+    let schema = sb.build();
+    let index = Index::create_in_ram(schema.clone());
+    let mut w: IndexWriter = index.writer_with_num_threads(1, 50_000_000)?;
+    // doc 0 holds the value; doc 1 pins the column type (a negative value makes the column i64,
+    // a value above i64::MAX makes it u64)
+    let pin: i128 = if col_ty == "i64" { -1 } else { u64::MAX as i128 };
+    for v in [val, pin] {
+        let d = tantivy::TantivyDocument::parse_json(&schema, &format!(r#"{{"j": {{"x": {v}}}}}"#))?;
+        w.add_document(d)?;
+    }
+    w.commit()?;
+    let mut term = Term::from_field_json_path(j, "x", true);
+    if lit_ty == "i64" {
+        term.append_type_and_fast_value(lit as i64);
+    } else {
+        term.append_type_and_fast_value(lit as u64);
+    }
+    let b = if kind == "Included" { Bound::Included(term) } else { Bound::Excluded(term) };
+    let q = if side == "lower" { RangeQuery::new(b, Bound::Unbounded) } else { RangeQuery::new(Bound::Unbounded, b) };
+    let searcher = index.reader()?.searcher();
+    let hits = searcher.search(&q, &DocSetCollector)?;
+    let matched = hits.iter().any(|a| a.doc_id == 0);
+    let should = match (side, kind) {
+        ("lower", "Included") => val >= lit,
+        ("lower", _) => val > lit,
+        ("upper", "Included") => val <= lit,
+        _ => val < lit,
+    };
+    Ok(searcher.segment_readers().len() == 1 && matched == should)
+}
+
 fn main() -> tantivy::Result<()> {
     let args: Vec<String> = std::env::args().collect();
+    if let Some(p) = args.iter().position(|a| a == "--json-range") {
+        let r = json_range_probe(&args[p + 1..]);
+        println!("{{\"n\":0,\"api\":\"json_range\",\"ok\":{}}}", matches!(r, Ok(true)));
+        return Ok(());
+    }
     let mut fail_op = None;
     let mut fail_occ = 0usize;
     let mut i = 1;
